@@ -969,6 +969,14 @@ def hub_nested_reads_once_PENDING : Prop :=
     ∀ (j : Nat) (row : List Nat), (callH srcs nsrc num den zero xs).trace[j]? = some row →
       ∀ (k v : Nat), row[k]? = some v → v = 0 ∨ v = j + 1
 
+/-- the PENDING statement is REDUCED (machine-checked) to a statement about lists with no `next`, no
+state and no trace in it: "`Poly` arithmetic on leaf Streams written once builds a linear forest" -/
+theorem hub_nested_reads_once_reduced
+    (builder_linear : ∀ (num den : PE K), num.Leafy → den.Leafy → (num.leafs ++ den.leafs).Nodup →
+      Linear (callCoefs num den)) : hub_nested_reads_once_PENDING (K := K) :=
+  fun srcs nsrc num den zero xs hn hd hnd =>
+    hub_nested_reads_once_checked srcs nsrc num den zero xs (builder_linear num den hn hd hnd)
+
 /-- non-vacuity: `Stream(repeat(1/2, 3)) * (1 + z^-1)` — `Poly.__mul__` makes a hub with two copies -/
 example : (mulHub [((0 : Int), HC.s (It.src 0))] [(0, HC.c (1 : Rat)), (1, HC.c 1)] 0).1
     = [(0, HC.s (.br .mul (.tee 0 0 (.src 0)) 1)), (1, HC.s (.br .mul (.tee 0 1 (.src 0)) 1))] := by
